@@ -607,6 +607,11 @@ func run(ctx *context) int {
 			deciding++
 		}
 		os.Remove(bin)
+		if ctx.tier == "quick" && len(ag.violations) > 0 {
+			// quick tier: a violation is already on the table, the remaining runs (race build, ...)
+			// would only add to it; on a tree that hangs they cost minutes each
+			break
+		}
 	}
 	if buildErr != "" {
 		fmt.Fprintf(os.Stderr, "ERROR: harness for %s does not build against %s:\n%s\n", p.id, ctx.repo, buildErr)
